@@ -11,6 +11,12 @@ int main(void) {
     for (char *q = spec; *q; q++) if (*q == '_') *q = ' ';   /* the space flag travels as '_' */
     if (kind[0] == 'u') n = snprintf(out, sizeof out, spec, strtoull(num, NULL, 10));
     else if (kind[0] == 's') n = snprintf(out, sizeof out, spec, strtoll(num, NULL, 10));
+    else if (kind[0] == 'b') {   /* a byte string without NULs, in hex ("-" = empty) */
+      char arg[64]; int k = 0;
+      if (num[0] != '-') for (; num[2*k] && num[2*k+1] && k < 31; k++) { unsigned v; sscanf(num + 2*k, "%2x", &v); arg[k] = (char)v; }
+      arg[k] = 0;
+      n = snprintf(out, sizeof out, spec, arg);
+    }
     else n = snprintf(out, sizeof out, spec, (int)strtol(num, NULL, 10));
     if (n < 0 || n >= (int)sizeof out) { puts("?"); continue; }
     if (n == 0) { puts("-"); continue; }
